@@ -31,10 +31,10 @@ namespace awkward {
   const ContentPtr
   ArrayGenerator::generate_and_check() {
     ContentPtr out = generate();
-    if (length_ >= 0  &&  length_ > out.get()->length()) {
+    if (length_ >= 0  &&  length_ != out.get()->length()) {
       throw std::invalid_argument(
           std::string(
-              "generated array does not have sufficient length: expected ") +
+              "generated array does not have the declared length: expected ") +
           std::to_string(length_) + std::string(" but generated ") +
           std::to_string(out.get()->length()) + FILENAME(__LINE__));
     }
